@@ -78,9 +78,24 @@ def project(tid, events):
     def outside(reason):
         out.append({"ev": "outside", "reason": reason})
 
+    inner = {}
+    for e in events:
+        if e.get("within") and e["ev"] in ("add_resource", "add_factory"):
+            inner.setdefault(e["within"], e)
     for e in events:
         ev = e["ev"]
         if ev in ("reg", "cb.begin", "cb.end", "res.event"):
+            continue
+        if ev == "comp.add":
+            # what a ComponentContext was asked to add, next to the call it delegated to the real context
+            i = inner.get(e["call"])
+            if out and out[-1]["ev"] == "outside":
+                break
+            row = {"ev": "cadd", "n": N(e["name"]), "isdefault": e["name"] == "default", "starting": e["state"] == "starting", "defname": N(e["default_name"]),
+                   "desc": D(e["desc"]), "fac": bool(e["fac"]), "r": RESULT.get(e["r"], "other"), "delegated": i is not None,
+                   "in": {"n": N(i["name"]), "desc": D(i["desc"]), "r": RESULT.get(i["r"], "other"), "fac": i["ev"] == "add_factory"} if i else
+                         {"n": "", "desc": "", "r": "", "fac": False}}
+            out.append(row)
             continue
         if out and out[-1]["ev"] == "outside":
             break
@@ -160,7 +175,7 @@ def project(tid, events):
     return {"id": tid, "events": out}
 
 
-PROPS = ("C02", "C03", "C04", "C13", "C18")
+PROPS = ("C02", "C03", "C04", "C13", "C14", "C18")
 
 
 def verdicts():
